@@ -1,71 +1,179 @@
 import EV.Proofs.System
+import EV.Proofs.SystemTip
+import EV.Proofs.SystemFix
 import EV.Props.C07carrier
 
 /-!
-# C07 — subscribers converge on the true status
+# C07 — subscribers converge on the true status and tip
 
-Model: `EV/Model/System.lean` — the status / history-cache coherence protocol between
-`SessionManager` (`limited_history`, `_notify_sessions`) and the `ElectrumX` sessions
-(`hashX_subscribe`, `_notify_inner`), every coroutine cut at its history read, tied to the real
-classes by suite `notifcache`.  The true state of a script hash is a version number (`curOf`); a
-change bumps it and puts the script hash into the `carrier` (that every change is carried is what
-C01–C03, C08 and C20 justify); `_notify_sessions` takes script hashes out of the carrier.
+Model: `EV/Model/System.lean` — the status / history-cache / tip coherence protocol between
+`SessionManager` (`limited_history`, `_notify_sessions`, `_refresh_hsub_results`) and the `ElectrumX`
+sessions (`hashX_subscribe`, `unsubscribe_hashX`, `address_status` with `mempool_statuses`, both loops
+of `_notify_inner`, `headers_subscribe`), every coroutine cut at its history read and
+`_notify_sessions` cut at its header read, tied to the real classes by suite `notifcache`.
 
-`Flags` default (`{}`) is the current code; `{checkCount := false}` (F5) and `{batch := true}` (F15)
-are the pinned earlier behaviours, for which the property is refuted below.
+The true status of a script hash is the pair (`confOf` = version of its confirmed history, `memOf` =
+its mempool part).  Environment events and what they owe (ghost sets, see the model's header):
+`change` / `mpChange` put the script hash into `carrier` (C07carrier + C08_touched + C20: every
+confirmed / mempool change of a script hash is in a touched set that reaches `_notify_sessions`);
+`flip x` — the `has_unconfirmed_inputs` flag of a mempool transaction of `x` flips because a PARENT
+entered or left the mempool — is carried by NO touched set; it puts `x` into `flipped`, which only
+a `_notify_sessions` call with `height_changed = true` empties.
 
-All theorems quantify over *every* event list (any interleaving of changes, notifications,
-subscriptions, queries, worker-thread reads and their completions; no bound on anything).
+**Environment assumption (E-flip), stated, not proved.**  The status string depends on a mempool
+transaction only through `(tx hash, has_unconfirmed_inputs)`, and `has_unconfirmed_inputs` =
+"some input's funding transaction is in the server's mempool view" (`MemPool.transaction_summaries`).
+The view changes only in `_process_mempool`, which touches every script hash of every transaction it
+adds or removes (C08_touched).  So a status changes without its script hash being touched only when
+a parent enters / leaves the view while the child stays.  With a daemon whose mempool is closed
+under unconfirmed ancestors (bitcoind: eviction, expiry and replacement remove descendants too) a
+parent leaves without its child only by being confirmed and re-enters without it only by being
+orphaned: together with a change of the chain.  `_process_mempool` runs at `mempool_height =
+db_height`, so the refresh that makes the flip visible reports at the new chain's height H, and the
+`_notify_sessions(H, ·)` call that Notifications makes once both sources have reported at H
+(C20_complete) has `height_changed = true` (`H != notified_height`, or the reorg counter moved: F4).
+(A parent evicted from the daemon's mempool while the child stays would flip the child's flag with
+no chain change: `_process_mempool` touches the parent's script hashes only.  No faithful daemon does
+that — `SimDaemon.mp_evict` evicts descendants as well — so it is an assumption, not a finding.)
+
+`Flags` default (`{}`) is the current code; `{checkCount := false}` (F5), `{batch := true}` (F15),
+`{recheck := false}` (no second loop: the shape of seeded change C07-1) are refuted below;
+`{cmpLive := true}` is the proposed fix of the stale-copy comparison (`C07_counterexample_stale_copy`).
+
+All theorems quantify over *every* event list (any interleaving of confirmed / mempool changes,
+parent flips, blocks, back-outs, reorg signals, notifications, subscribes, unsubscribes, session
+closes, header subscriptions, queries, cache evictions, worker-thread reads of histories and headers
+and their completions; any number of sessions and script hashes; no bound on anything).
 -/
 namespace EV.System
 
-/-- **C07 (invariant).**  In every reachable state, for every session `s` and every script hash
-`hx` it is subscribed to: either the status the session was last sent belongs to a version that is
-current or whose change is still being carried towards `_notify_sessions`, or a recomputation of
-`(s, hx)` is pending inside a running `_notify_inner`. -/
+/-- **C07 (invariant).**  In every reachable state, for every connected session `s` and every script
+hash `hx` it is subscribed to, one of:
+ * a recomputation of `(s, hx)` is pending inside a running `_notify_inner` (`Pending`);
+ * a full recomputation for every subscriber is owed (`Owed`: still carried, or handed to a
+   `_notify_sessions` call suspended in its header read, or lost for good — `lost`, `suppressed`);
+ * the status the client last received has the current confirmed version and either both it and the
+   truth have no mempool part, or `mempool_statuses` records exactly that status and its mempool
+   part is current, or a re-check is owed (`OwedF`: a flip awaiting its height-changing
+   notification), or the second loop of a running `_notify_inner` of `s` is still to come. -/
 theorem C07_invariant (n m : Nat) (evs : List Ev) (s hx : Nat)
+    (ha : aliveOf (run {} (init n m) evs) s = true)
     (hs : hx ∈ subsOf (run {} (init n m) evs) s) :
-    (∃ v, heldOf (run {} (init n m) evs) s hx = some v ∧
-        (v = curOf (run {} (init n m) evs) hx ∨ hx ∈ (run {} (init n m) evs).carrier)) ∨
-      Pending (run {} (init n m) evs) s hx :=
-  (inv_run _ evs (inv_init n m)).held s hx hs
+    HeldOK (run {} (init n m) evs) s hx :=
+  (inv_run _ evs (inv_init n m)).held s hx ha hs
 
-/-- **C07 (convergence).**  For every schedule, in every *quiescent* state reached (no change still
-carried, no history read or `_notify_inner` in flight), for every session and every script hash it is
-subscribed to: the status last sent to the session is that of the current version. -/
-theorem C07_converge (n m : Nat) (evs : List Ev)
-    (hc : (run {} (init n m) evs).carrier = []) (ht : (run {} (init n m) evs).tasks = []) :
-    ∀ s hx, hx ∈ subsOf (run {} (init n m) evs) s →
+/-- **C07 (convergence).**  For every schedule, in every *quiescent* state reached (`Quiet`, defined
+and mapped to the property's quiescence in `EV/Proofs/System.lean`), for every connected session and
+every script hash it is subscribed to: the status the client last received — from the subscribe
+reply or a later notification — is the protocol status of the current chain and mempool. -/
+theorem C07_converge (n m : Nat) (evs : List Ev) (hq : Quiet (run {} (init n m) evs)) :
+    ∀ s hx, aliveOf (run {} (init n m) evs) s = true → hx ∈ subsOf (run {} (init n m) evs) s →
       heldOf (run {} (init n m) evs) s hx = some (curOf (run {} (init n m) evs) hx) :=
-  (quiescent_current _ (inv_run _ evs (inv_init n m)) hc ht).1
+  (quiescent_current _ (inv_run _ evs (inv_init n m)) hq).1
+
+/-- **C07 (tip).**  In every quiescent state `hsub_results` is the current tip (height and header),
+`notified_height` is the DB height, and the last header every connected headers-subscriber received
+(subscribe reply or notification) is the current tip.  Holds for all flags. -/
+theorem C07_tip (f : Flags) (n m : Nat) (evs : List Ev)
+    (hd : (run f (init n m) evs).tipDone = true) (hr : (run f (init n m) evs).hreads = []) :
+    (run f (init n m) evs).hsub = tipOf (run f (init n m) evs) ∧
+    (run f (init n m) evs).notifiedHeight = dbHeight (run f (init n m) evs) ∧
+    ∀ s, aliveOf (run f (init n m) evs) s = true → hdrSubOf (run f (init n m) evs) s = true →
+      heldHdrOf (run f (init n m) evs) s = some (tipOf (run f (init n m) evs)) :=
+  quiescent_tip _ (tipInv_run f _ evs (tipInv_init n m)) hd hr
+
+/-- **C07 (tip, invariant).**  In every reachable state the last header a connected
+headers-subscriber received is `hsub_results` (no header notification is ever skipped or overtaken). -/
+theorem C07_tip_invariant (f : Flags) (n m : Nat) (evs : List Ev) (s : Nat)
+    (ha : aliveOf (run f (init n m) evs) s = true) (hs : hdrSubOf (run f (init n m) evs) s = true) :
+    heldHdrOf (run f (init n m) evs) s = some (run f (init n m) evs).hsub :=
+  (tipInv_run f _ evs (tipInv_init n m)).heldCur s ha hs
+
+/-- **C07 (queryable).**  A notification carrying a height is never sent before that block is
+queryable: in every reachable state `hsub_results` and every header a client holds is the genesis
+block or the (height, header) of a block at the moment the DB made it readable — `advance d` is the
+flush that `C01sync_told` shows to precede `Notifications.on_block`, and the header is read from the
+DB at `min(height, db height)` (F16), so this needs no assumption on the heights `_notify_sessions`
+is called with. -/
+theorem C07_queryable (f : Flags) (n m : Nat) (evs : List Ev) (p : Nat × Nat)
+    (hp : p = (run f (init n m) evs).hsub ∨ ∃ s, heldHdrOf (run f (init n m) evs) s = some p) :
+    p = (0, 0) ∨ ∃ pre post, evs = pre ++ .advance p.2 :: post ∧
+      (run f (init n m) pre).chain.length = p.1 := by
+  apply seen_sound f n m evs p
+  have h := tipInv_run f _ evs (tipInv_init n m)
+  rcases hp with rfl | ⟨s, hs⟩
+  · exact h.hsubSeen
+  · exact h.heldSeen s p hs
+
+/-- **C07 under the proposed fix.**  With the second loop comparing against the live
+`mempool_statuses` value, nothing is ever suppressed, `mempool_statuses` only records statuses the
+client holds, and convergence needs no `suppressed = []` hypothesis. -/
+theorem C07_fixed (n m : Nat) (evs : List Ev) :
+    (run {cmpLive := true} (init n m) evs).suppressed = [] ∧
+    (∀ s x v, lookup x (msOf (run {cmpLive := true} (init n m) evs) s) = some v →
+      heldOf (run {cmpLive := true} (init n m) evs) s x = some v) ∧
+    ((run {cmpLive := true} (init n m) evs).carrier = [] → (run {cmpLive := true} (init n m) evs).flipped = [] →
+     (run {cmpLive := true} (init n m) evs).lost = [] → (run {cmpLive := true} (init n m) evs).hreads = [] →
+     (run {cmpLive := true} (init n m) evs).tasks = [] → (run {cmpLive := true} (init n m) evs).tipDone = true →
+      ∀ s hx, aliveOf (run {cmpLive := true} (init n m) evs) s = true →
+        hx ∈ subsOf (run {cmpLive := true} (init n m) evs) s →
+        heldOf (run {cmpLive := true} (init n m) evs) s hx = some (curOf (run {cmpLive := true} (init n m) evs) hx)) := by
+  have hI := inv_run_flags {cmpLive := true} rfl rfl rfl _ evs (inv_init n m)
+  have hF := fix_run {cmpLive := true} rfl rfl rfl rfl _ evs (inv_init n m) (fixInv_init n m)
+  exact ⟨hF.nosupp, hF.msHeld, fun h1 h2 h3 h4 h5 h6 =>
+    (quiescent_current _ hI ⟨h1, h2, h3, hF.nosupp, h4, h5, h6⟩).1⟩
 
 /-! ### non-vacuity -/
 
 /-- subscribe, then a change is notified and recomputed: a quiescent state in which the session
 holds version 1 -/
 def exConverge : List Ev :=
-  [.subscribe 0 0, .readDo 0, .readFinish 0, .change 0, .notify [0], .readDo 0, .readFinish 0]
+  [.subscribe 0 0, .readDo 0, .readFinish 0, .change 0, .notify 0 [0], .readDo 0, .readFinish 0]
 
 example : (run {} (init 1 2) exConverge).carrier = [] ∧ (run {} (init 1 2) exConverge).tasks = [] ∧
-    0 ∈ subsOf (run {} (init 1 2) exConverge) 0 ∧
-    heldOf (run {} (init 1 2) exConverge) 0 0 = some 1 ∧ curOf (run {} (init 1 2) exConverge) 0 = 1 := by
-  rw [run_eq_foldl_stepS _ _ _ (by decide)]
+    (run {} (init 1 2) exConverge).flipped = [] ∧ (run {} (init 1 2) exConverge).lost = [] ∧
+    (run {} (init 1 2) exConverge).suppressed = [] ∧ (run {} (init 1 2) exConverge).hreads = [] ∧
+    (run {} (init 1 2) exConverge).tipDone = true ∧
+    aliveOf (run {} (init 1 2) exConverge) 0 = true ∧ 0 ∈ subsOf (run {} (init 1 2) exConverge) 0 ∧
+    heldOf (run {} (init 1 2) exConverge) 0 0 = some (1, 0) ∧ curOf (run {} (init 1 2) exConverge) 0 = (1, 0) := by
   decide +kernel
 
 /-- the `Pending` disjunct of the invariant is inhabited: `_notify_inner` waiting for its read -/
 example : Pending (run {} (init 1 2) (exConverge.take 5)) 0 0 ∧
-    heldOf (run {} (init 1 2) (exConverge.take 5)) 0 0 = some 0 ∧
-    curOf (run {} (init 1 2) (exConverge.take 5)) 0 = 1 ∧
+    heldOf (run {} (init 1 2) (exConverge.take 5)) 0 0 = some (0, 0) ∧
+    curOf (run {} (init 1 2) (exConverge.take 5)) 0 = (1, 0) ∧
     (run {} (init 1 2) (exConverge.take 5)).carrier = [] := by
-  refine ⟨⟨⟨0, 1, none, .notify 0 [] []⟩, ?_, [], [], rfl, Or.inl rfl⟩, ?_⟩
-  · rw [run_eq_foldl_stepS _ _ _ (by decide)]; decide +kernel
-  · rw [run_eq_foldl_stepS _ _ _ (by decide)]; decide +kernel
+  refine ⟨⟨⟨0, 1, none, .notify 0 [] []⟩, ?_, Or.inl ⟨[], [], rfl, Or.inl rfl⟩⟩, ?_⟩
+  · decide +kernel
+  · decide +kernel
+
+/-- a flip handled by the second loop: the child's parent is orphaned by a reorg (mempool part
+2 → 1, not carried); the height-changing notification re-checks `mempool_statuses` and the client is
+sent the new status; a headers-subscriber is sent the new tip.  A quiescent state. -/
+def exFlip : List Ev :=
+  [.mpChange 0 2, .notify 0 [0], .subscribe 0 0, .readDo 0, .readFinish 0, .subscribeHeaders 0,
+   .backup, .reorgSignal, .flip 0 1, .advance 5, .notify 1 [], .hdrDo 0, .hdrFinish 0]
+
+example : (run {} (init 1 2) (exFlip.take 10)).flipped = [0] ∧
+    heldOf (run {} (init 1 2) (exFlip.take 10)) 0 0 = some (0, 2) ∧
+    curOf (run {} (init 1 2) (exFlip.take 10)) 0 = (0, 1) ∧
+    lookup 0 (msOf (run {} (init 1 2) (exFlip.take 10)) 0) = some (0, 2) := by
+  decide +kernel
+
+example : (run {} (init 1 2) exFlip).carrier = [] ∧ (run {} (init 1 2) exFlip).tasks = [] ∧
+    (run {} (init 1 2) exFlip).flipped = [] ∧ (run {} (init 1 2) exFlip).lost = [] ∧
+    (run {} (init 1 2) exFlip).suppressed = [] ∧ (run {} (init 1 2) exFlip).hreads = [] ∧
+    (run {} (init 1 2) exFlip).tipDone = true ∧
+    heldOf (run {} (init 1 2) exFlip) 0 0 = some (0, 1) ∧ curOf (run {} (init 1 2) exFlip) 0 = (0, 1) ∧
+    (run {} (init 1 2) exFlip).hsub = (1, 5) ∧ tipOf (run {} (init 1 2) exFlip) = (1, 5) ∧
+    heldHdrOf (run {} (init 1 2) exFlip) 0 = some (1, 5) := by
+  decide +kernel
 
 /-! ### the pinned behaviours violate the property -/
 
 /-- F5 schedule: the history read of `subscribe` is in flight while the change is notified -/
 def exStaleSubscribe : List Ev :=
-  [.subscribe 0 0, .readDo 0, .change 0, .notify [0], .readFinish 0]
+  [.subscribe 0 0, .readDo 0, .change 0, .notify 0 [0], .readFinish 0]
 
 /-- **C07 fails without the notification-count check (F5).**  `hashX_subscribe` whose history read
 is performed before a change and delivered after the change was notified: the stale read is
@@ -74,24 +182,27 @@ while the current version is 1. -/
 theorem C07_counterexample_stale_subscribe :
     (run {checkCount := false} (init 1 2) exStaleSubscribe).carrier = [] ∧
     (run {checkCount := false} (init 1 2) exStaleSubscribe).tasks = [] ∧
+    (run {checkCount := false} (init 1 2) exStaleSubscribe).flipped = [] ∧
+    (run {checkCount := false} (init 1 2) exStaleSubscribe).lost = [] ∧
+    (run {checkCount := false} (init 1 2) exStaleSubscribe).suppressed = [] ∧
+    (run {checkCount := false} (init 1 2) exStaleSubscribe).hreads = [] ∧
+    (run {checkCount := false} (init 1 2) exStaleSubscribe).tipDone = true ∧
     0 ∈ subsOf (run {checkCount := false} (init 1 2) exStaleSubscribe) 0 ∧
-    heldOf (run {checkCount := false} (init 1 2) exStaleSubscribe) 0 0 = some 0 ∧
-    curOf (run {checkCount := false} (init 1 2) exStaleSubscribe) 0 = 1 := by
-  rw [run_eq_foldl_stepS _ _ _ (by decide)]
+    heldOf (run {checkCount := false} (init 1 2) exStaleSubscribe) 0 0 = some (0, 0) ∧
+    curOf (run {checkCount := false} (init 1 2) exStaleSubscribe) 0 = (1, 0) := by
   decide +kernel
 
 /-- the same schedule on the current code: the read is repeated, the subscription not yet stored -/
 example : (run {} (init 1 2) exStaleSubscribe).tasks = [⟨0, 1, none, .sub 0 0⟩] ∧
     subsOf (run {} (init 1 2) exStaleSubscribe) 0 = [] := by
-  rw [run_eq_foldl_stepS _ _ _ (by decide)]
   decide +kernel
 
 /-- F15 schedule: two subscriptions; `notify [0,1]` computes the status of 0 and waits for the
 history of 1; `change 0; notify [0]` is computed and delivered; then the first notification finishes -/
 def exOvertaken : List Ev :=
   [.subscribe 0 0, .readDo 0, .readFinish 0, .subscribe 0 1, .readDo 0, .readFinish 0,
-   .change 0, .change 1, .notify [0, 1], .readDo 0, .readFinish 0,
-   .change 0, .notify [0], .readDo 1, .readFinish 0,
+   .change 0, .change 1, .notify 0 [0, 1], .readDo 0, .readFinish 0,
+   .change 0, .notify 0 [0], .readDo 1, .readFinish 0,
    .readDo 0, .readFinish 0, .readDo 0, .readFinish 0]
 
 /-- **C07 fails when `_notify_inner` sends all statuses after computing all of them (F15).**  A later
@@ -101,16 +212,104 @@ version is 2. -/
 theorem C07_counterexample_overtaken :
     (run {batch := true} (init 1 2) exOvertaken).carrier = [] ∧
     (run {batch := true} (init 1 2) exOvertaken).tasks = [] ∧
+    (run {batch := true} (init 1 2) exOvertaken).flipped = [] ∧
+    (run {batch := true} (init 1 2) exOvertaken).lost = [] ∧
+    (run {batch := true} (init 1 2) exOvertaken).suppressed = [] ∧
+    (run {batch := true} (init 1 2) exOvertaken).hreads = [] ∧
+    (run {batch := true} (init 1 2) exOvertaken).tipDone = true ∧
     0 ∈ subsOf (run {batch := true} (init 1 2) exOvertaken) 0 ∧
-    heldOf (run {batch := true} (init 1 2) exOvertaken) 0 0 = some 1 ∧
-    curOf (run {batch := true} (init 1 2) exOvertaken) 0 = 2 := by
-  rw [run_eq_foldl_stepS _ _ _ (by decide)]
+    heldOf (run {batch := true} (init 1 2) exOvertaken) 0 0 = some (1, 0) ∧
+    curOf (run {batch := true} (init 1 2) exOvertaken) 0 = (2, 0) := by
   decide +kernel
 
 /-- the same schedule on the current code ends with the current version -/
 example : (run {} (init 1 2) exOvertaken).carrier = [] ∧ (run {} (init 1 2) exOvertaken).tasks = [] ∧
-    heldOf (run {} (init 1 2) exOvertaken) 0 0 = some 2 ∧ curOf (run {} (init 1 2) exOvertaken) 0 = 2 := by
-  rw [run_eq_foldl_stepS _ _ _ (by decide)]
+    heldOf (run {} (init 1 2) exOvertaken) 0 0 = some (2, 0) ∧ curOf (run {} (init 1 2) exOvertaken) 0 = (2, 0) := by
+  decide +kernel
+
+/-- **C07 fails without the `mempool_statuses` re-check** (no second loop; seeded change C07-1 has
+this effect for a script hash whose mempool transactions have confirmed parents).  Schedule `exFlip`:
+the flip caused by the reorg reaches nobody; at rest the session holds mempool part 2 while the
+protocol status has mempool part 1. -/
+theorem C07_counterexample_flip_lost :
+    (run {recheck := false} (init 1 2) exFlip).carrier = [] ∧
+    (run {recheck := false} (init 1 2) exFlip).tasks = [] ∧
+    (run {recheck := false} (init 1 2) exFlip).flipped = [] ∧
+    (run {recheck := false} (init 1 2) exFlip).lost = [] ∧
+    (run {recheck := false} (init 1 2) exFlip).suppressed = [] ∧
+    (run {recheck := false} (init 1 2) exFlip).hreads = [] ∧
+    (run {recheck := false} (init 1 2) exFlip).tipDone = true ∧
+    aliveOf (run {recheck := false} (init 1 2) exFlip) 0 = true ∧
+    0 ∈ subsOf (run {recheck := false} (init 1 2) exFlip) 0 ∧
+    heldOf (run {recheck := false} (init 1 2) exFlip) 0 0 = some (0, 2) ∧
+    curOf (run {recheck := false} (init 1 2) exFlip) 0 = (0, 1) := by
+  decide +kernel
+
+/-- The stale-copy schedule.  Session 0 is subscribed to 1 (mempool part 2) and 0 (mempool part 1: a
+child of an unconfirmed parent); the cached history of 1 has been evicted.  `notify 1 []` (height
+changed) starts the second loop over the copy `{1 ↦ (0,2), 0 ↦ (0,1)}` and suspends on the history of
+1.  The parent confirms (`flip 0 2`), the client re-subscribes 0 and is told `(0,2)`; a reorg orphans
+the parent again (`flip 0 1`).  The suspended loop resumes: the status of 0 is `(0,1)` = the value in
+its copy, so nothing is sent — but `(0,1)` is stored in `mempool_statuses`, so the reorg's own
+height-changing notification finds "no change" as well. -/
+def exStaleCopy : List Ev :=
+  [.mpChange 1 2, .mpChange 0 1, .notify 0 [0, 1],
+   .subscribe 0 1, .readDo 0, .readFinish 0, .subscribe 0 0, .readDo 0, .readFinish 0,
+   .evict 1, .advance 1, .notify 1 [], .hdrDo 0, .hdrFinish 0,
+   .flip 0 2, .subscribe 0 0, .flip 0 1, .readDo 0, .readFinish 0,
+   .reorgSignal, .notify 1 [], .hdrDo 0, .hdrFinish 0]
+
+/-- **C07 fails for the pinned second-loop comparison (finding: stale copy).**  At the end of
+`exStaleCopy` nothing is carried, flipped, lost or in flight and the tip has been notified, yet the
+client holds `(0,2)` while the protocol status is `(0,1)`; the ghost set `suppressed` records the
+two comparisons that hid it. -/
+theorem C07_counterexample_stale_copy :
+    (run {} (init 1 2) exStaleCopy).carrier = [] ∧ (run {} (init 1 2) exStaleCopy).tasks = [] ∧
+    (run {} (init 1 2) exStaleCopy).flipped = [] ∧ (run {} (init 1 2) exStaleCopy).lost = [] ∧
+    (run {} (init 1 2) exStaleCopy).hreads = [] ∧ (run {} (init 1 2) exStaleCopy).tipDone = true ∧
+    (run {} (init 1 2) exStaleCopy).suppressed = [0, 0] ∧
+    aliveOf (run {} (init 1 2) exStaleCopy) 0 = true ∧ 0 ∈ subsOf (run {} (init 1 2) exStaleCopy) 0 ∧
+    heldOf (run {} (init 1 2) exStaleCopy) 0 0 = some (0, 2) ∧
+    curOf (run {} (init 1 2) exStaleCopy) 0 = (0, 1) := by
+  decide +kernel
+
+/-- the same schedule under the proposed fix: the resumed loop compares with the live value `(0,2)`,
+sends `(0,1)`, and the state is quiescent with the current status -/
+example : (run {cmpLive := true} (init 1 2) exStaleCopy).carrier = [] ∧
+    (run {cmpLive := true} (init 1 2) exStaleCopy).tasks = [] ∧
+    (run {cmpLive := true} (init 1 2) exStaleCopy).flipped = [] ∧
+    (run {cmpLive := true} (init 1 2) exStaleCopy).hreads = [] ∧
+    (run {cmpLive := true} (init 1 2) exStaleCopy).suppressed = [] ∧
+    heldOf (run {cmpLive := true} (init 1 2) exStaleCopy) 0 0 = some (0, 1) ∧
+    curOf (run {cmpLive := true} (init 1 2) exStaleCopy) 0 = (0, 1) := by
+  decide +kernel
+
+/-- F16 follow-up: the DB is lowered while the header is read (IndexError) and is back at that height
+when the error reaches `_refresh_hsub_results`: `if height <= self.db.state.height: raise`.  The
+notification — its touched set `[0]` — is lost (`lost`), and the client keeps version 0. -/
+def exRaised : List Ev :=
+  [.subscribe 0 0, .readDo 0, .readFinish 0, .advance 1, .change 0, .notify 1 [0],
+   .backup, .hdrDo 0, .advance 2, .hdrFinish 0]
+
+theorem C07_counterexample_refresh_raised :
+    (run {} (init 1 2) exRaised).lost = [0] ∧ (run {} (init 1 2) exRaised).carrier = [] ∧
+    (run {} (init 1 2) exRaised).tasks = [] ∧ (run {} (init 1 2) exRaised).hreads = [] ∧
+    heldOf (run {} (init 1 2) exRaised) 0 0 = some (0, 0) ∧ curOf (run {} (init 1 2) exRaised) 0 = (1, 0) := by
+  decide +kernel
+
+/-- the hypothesis `tipDone` of `C07_tip` is needed: two `_notify_sessions` calls for different
+heights whose header reads complete out of order leave `hsub_results` at the older block.  (The
+environment never produces this: while one call is in progress Notifications emits no call for
+another height — `tipDone` is what records it.) -/
+example :
+    (run {} (init 1 2) [.subscribeHeaders 0, .advance 1, .notify 1 [], .advance 2, .notify 2 [],
+      .hdrDo 0, .hdrDo 0, .hdrFinish 1, .hdrFinish 0]).hreads = [] ∧
+    (run {} (init 1 2) [.subscribeHeaders 0, .advance 1, .notify 1 [], .advance 2, .notify 2 [],
+      .hdrDo 0, .hdrDo 0, .hdrFinish 1, .hdrFinish 0]).tipDone = false ∧
+    (run {} (init 1 2) [.subscribeHeaders 0, .advance 1, .notify 1 [], .advance 2, .notify 2 [],
+      .hdrDo 0, .hdrDo 0, .hdrFinish 1, .hdrFinish 0]).hsub = (1, 1) ∧
+    tipOf (run {} (init 1 2) [.subscribeHeaders 0, .advance 1, .notify 1 [], .advance 2, .notify 2 [],
+      .hdrDo 0, .hdrDo 0, .hdrFinish 1, .hdrFinish 0]) = (2, 2) := by
   decide +kernel
 
 end EV.System
